@@ -333,10 +333,13 @@ pub fn check_one(ctx: &mut Ctx, family: &str, idx: u64, p: &PktM) {
 
 pub fn run(ctx: &mut Ctx) {
     let tier = ctx.tier;
-    let n = if ctx.slow_tool { 10 } else { tier.pick(2500u64, 40_000u64) };
+    let n = if ctx.slow_tool { 10 } else { tier.pick(12_000u64, 600_000u64) };
     for idx in 0..n {
         if !ctx.take("matrix", idx) {
             continue;
+        }
+        if ctx.stop("matrix") {
+            break;
         }
         let mut r = ctx.rng("matrix", idx);
         let cfg = if idx % 2 == 0 { super::c03::share_cfg() } else { Cfg { max_entries: 3, ..Default::default() } };
@@ -360,9 +363,12 @@ pub fn run(ctx: &mut Ctx) {
     }
     if !ctx.slow_tool {
         // long messages (sparse capacities)
-        for idx in 0..tier.pick(40u64, 600u64) {
+        for idx in 0..tier.pick(80u64, 3000u64) {
             if !ctx.take("long", idx) {
                 continue;
+            }
+            if ctx.stop("long") {
+                break;
             }
             let mut r = ctx.rng("long", idx);
             let p = super::c03::window_packet(&mut r, 16380 + (idx as usize % 10));
